@@ -77,7 +77,7 @@ def respOfRec (r : Rec) : Resp :=
       match r.hookResp with
       | some b => .hookOk b
       | none => .hookErr "decode"
-    else if r.code == 429 then .hook429 0
+    else if r.code == 429 then .hook429 r.hookRetryAfter
     else .hookErr "status"
   else if r.ok then .obj r.resp else .err r.reason
 
